@@ -3,7 +3,7 @@ from .. import config, corpus, gen
 from ..core import Ctx, finish
 from ..rules_vector import Checker
 from ..rules_own import discover_owners, ownership, ctor_alloc_relation
-from ..rules_elem import rule_E
+from ..rules_elem import rule_E, rule_EQ
 from ._common import ASSUME, TRUSTED
 
 
@@ -13,6 +13,7 @@ def rule(tu, rec):
     ctor_alloc_relation(ck, owners, "OWN")
     ownership(ck, owners, "OWN")
     rule_E(ck, owners)
+    rule_EQ(ck)
 
 
 def configs(tier, seed):
